@@ -94,7 +94,7 @@ CHECKS = {
 NOT_APPLICABLE = {
     'C05': 'quantifies over arrival schedules and concurrent connect/disconnect; the mechanism (FairQueue::poll_next releasing a parking_lot lock around a checked-out stream, wakers firing on other threads) is outside what Verus (&mut model assumes no interference) or Kani (no threads, crashes on parking_lot, HashMap intractable) can express. Per-call facts that ARE proved, in sequential scope, and reported under C14/C02: poll_next labels an item with the key of the stream it came from, puts every checked-out stream back unless it ended, invents no key; the per-connection decoder yields each complete message exactly once, whole and in order',
     'C06': 'liveness / fairness over adversarial schedules; wake-ups go through &Waker (no state a per-call contract can see)',
-    'C12': 'about back-pressure schedules and the Sink polling protocol on Pin<&mut Self>; no per-call contract expresses it',
+    'C12': 'about back-pressure schedules and the Sink polling protocol on Pin<&mut Self> (poll_ready / start_send / poll_flush of the external FramedWrite, its high-water mark and buffer): no per-call contract within reach expresses "never waits" or the memory bound. Per-call facts that ARE proved, and reported under C11: a full buffer or an I/O error of one subscriber never makes the publish fail, every subscriber is handed a matching message exactly once and independently of the others (one try_send per subscriber per publish, whole message or nothing is an assumption on try_send)',
     'C15': 'futures::select! expansion and scheduling',
     'C16': 'quantifies over fault x schedule sequences and is about resource release (Drop, descriptors), neither expressible as a per-call contract. Per-call facts that ARE proved under C09/C10/C14: ROUTER/PULL/REP recv forget exactly the peer whose connection failed and touch no other entry, round-robin send removes a peer whose write failed, the fair queue drops a stream only when it has ended',
     'C17': 'OS listeners, runtime task termination, Drop',
